@@ -17,7 +17,7 @@ def loop_obj(i):
     return Obj(TypeRef("asyncio.AbstractEventLoop"), {"id": i}, tag=f"loop{i}")
 
 
-def fetch_wrapper(ctx, callable_, fetch_on="other", loops=None):
+def fetch_wrapper(ctx, callable_, fetch_on="other", loops=None, name="method"):
     """Stage 1: proxy.<name>  ->  list of (path, closure or None).  ``fetch_on``: the loop that is running while the attribute
     is looked up (a wrapper may be fetched on one loop and called from another)."""
     repo = ctx.repo
@@ -28,10 +28,10 @@ def fetch_wrapper(ctx, callable_, fetch_on="other", loops=None):
     px = PX(repo, models=[("callable", lambda px_, t, a, k, fr: callable_)] +
             [(n, lambda px_, t, a, k, fr: here) for n in ("asyncio.get_running_loop", "asyncio._get_running_loop", "asyncio.get_event_loop",
                                                         "asyncio.events.get_running_loop", "asyncio.events._get_running_loop")], inline=same_class())
-    target = Obj(TypeRef("Target"), {"method": Sym("func")}, tag="target")
+    target = Obj(TypeRef("Target"), {name: Sym("func")}, tag="target")
 
     def setup():
-        return self_obj(cls, {"_obj": target, "_obj_loop": owner}), {"name": "method"}
+        return self_obj(cls, {"_obj": target, "_obj_loop": owner}), {"name": name}
 
     return f, owner, px.explore(f, setup)
 
@@ -47,11 +47,13 @@ def r20_1(ctx):
     caller's loop, and a plain function is queued with call_soon_threadsafe on the owner's loop, the queued closure
     calling it and raising TypeError for a non-None result."""
     repo = ctx.repo
-    f, owner, paths = fetch_wrapper(ctx, False)
-    ctx.fn(f)
-    for p in paths:
-        ctx.require(p.raised("TypeError") and not any(isinstance(v, Closure) for v in [p.value]), "non-callable",
-                    f"non-callable attribute: {p.terminal} {p.value!r} (must raise TypeError)", func=f)
+    for attr in ("method", "_private", "x", "CONSTANT", "connection_lost"):
+        f, owner, paths = fetch_wrapper(ctx, False, name=attr)
+        ctx.fn(f)
+        ctx.anchor(paths, f"proxy attribute access of a non-callable attribute {attr!r} explored")
+        for p in paths:
+            ctx.require(p.raised("TypeError") and not any(isinstance(v, Closure) for v in [p.value]), "non-callable",
+                        f"non-callable attribute {attr!r}: {p.terminal} {p.value!r} (must raise TypeError)", func=f)
     def callable_value(v):
         return isinstance(v, (Closure, Bound, Partial, FuncRef)) or v == Sym("func")
 
